@@ -2,7 +2,8 @@
 """archive.py <worktree> <n> <pid> <detected_by text>: keep a confirmed seeded change under /verif/seeded/<pid>-<n>/"""
 import json, os, shutil, sys
 wt, n, pid, detected = sys.argv[1], sys.argv[2], sys.argv[3], sys.argv[4]
-d = "/verif/seeded/%s-%s" % (pid, n)
+rnd = sys.argv[5] if len(sys.argv) > 5 else ""
+d = "/verif/seeded/%s-%s%s" % (pid, rnd, n)
 os.makedirs(d, exist_ok=True)
 shutil.copy("%s/out/mutant%s.diff" % (wt, n), d + "/patch.diff")
 shutil.copy("%s/out/demo%s.rs" % (wt, n), d + "/demo.rs")
